@@ -183,6 +183,15 @@ def main(tier, seed):
             bad.append((c, i, ["the parent answered Disable itself after its child's event (so it was unregistered without the reregistration the child had asked "
                                "for) and was enabled again: the child calls / wrapper results %s failed - the child's registration was not in step with its parent's "
                                "(G = register, Y = reregister, U = unregister, S = the wrapper's own result)" % failed]))
+    # a removed child whose fd becomes ready before the reregistration that will unregister it: nothing is forwarded any more
+    rcases = [("from reg rm evC rereg", 0), ("from reg evC rm evC evC rereg", 1), ("from reg evR rm evC rereg", 1)]
+    rimpl, _ = vlib.run_impl(["transient"], [c for c, _ in rcases])
+    chk.cov["removed_child_ready_before_reregistration"] = {"cases": len(rcases), "sample": {"case": rcases[0][0], "impl": rimpl[0] if rimpl else ""}}
+    for (c, want), i in zip(rcases, rimpl):
+        nf = len([w for w in i.split("|")[0].split() if w[0] == "F"])
+        if nf != want or i.startswith("PANIC"):
+            bad.append((c, i, ["the fd of a child that had been removed became ready before the parent's reregistration: %d events were forwarded in this history, "
+                               "%d come from a current child - an event was forwarded from a child that is no longer the current one" % (nf, want)]))
     if known_hit:
         k = [x for x in vlib.load_known() if x.get("id") == "F7" and x.get("status") == "known"]
         if k:
